@@ -1294,8 +1294,9 @@ class NumberOrderedForm(Operator):
                 partial = partial._multiply_op(i, power)
             # Now multiply by the number part
             partial = partial._multiply_expr(coeff)
-            # Finally, multiply by annihilation operators
-            for i, power in enumerate(powers):
+            # Finally, multiply by annihilation operators. A term stores them with
+            # the last operator leftmost (see `as_expr`), so that one acts first.
+            for i, power in reversed(list(enumerate(powers))):
                 if not power > 0:
                     continue
                 partial = partial._multiply_op(i, power)
